@@ -61,4 +61,45 @@ def clauses (dump : String) (trace : String) : List String :=
           | some i, some j => i < j || p == n
           | _, _ => true) then [] else ["c11-child-before-parent"])
 
+/-! ### pruned walks: a `false` answer skips exactly that node's descendants -/
+
+/-- all nodes that carry a span (any type), each with its enclosing such nodes -/
+partial def nodesAnc (anc : List (String × Span)) : SExp → List ((String × Span) × List (String × Span))
+  | .atom _ => []
+  | .list xs => xs.flatMap (nodesAnc anc)
+  | .node ty fs =>
+    let me : Option (String × Span) := (atOf fs).map fun sp => (ty, sp)
+    let anc' := match me with | some m => m :: anc | none => anc
+    let below := fs.flatMap fun f =>
+      if (ty == "CallExpr" && f.1 == "Func") || (ty == "JoinOperator" && f.1 == "Flavor") then []
+      else nodesAnc anc' f.2
+    match me with
+    | some m => (m, anc) :: below
+    | none => below
+
+/-- `mask`: the visitor answered `mask[i mod |mask|] == '1'` at its i-th call -/
+def prunedClauses (dump : String) (trace : String) (mask : String) : List String :=
+  let evs := if trace.isEmpty then [] else trace.splitOn " "
+  (if evs.contains "PANIC" then ["c11-panic"] else []) ++
+  (if evs.contains "NIL" then ["c11-nil-node"] else []) ++
+  match parseSExp dump with
+  | none => ["unreadable-dump"]
+  | some sx =>
+    let m := mask.toList
+    if m.isEmpty then [] else
+    let answered : List ((String × Span) × Bool) :=
+      (evs.zipIdx).filterMap fun (e, i) => (readEvent e).map fun n => (n, m.getD (i % m.length) '1' == '1')
+    let visited := answered.map (·.1)
+    let refused := (answered.filter fun a => !a.2).map (·.1)
+    let nodes := (nodesAnc [] sx).filter fun n => exprTypes.contains n.1.1
+    let want := nodes.map (·.1)
+    let blocked (n : (String × Span) × List (String × Span)) : Bool := n.2.any fun a => refused.contains a
+    -- a node under a refused node is not visited …
+    (if nodes.all (fun n => !blocked n || count n.1 visited == 0 ||
+          -- (a same-looking node elsewhere may legitimately be visited)
+          (nodes.any fun n' => n'.1 == n.1 && !blocked n')) then [] else ["c11-pruned-descendant-visited"]) ++
+    -- … and every other node is still visited, once
+    (if nodes.all (fun n => blocked n || count n.1 visited ≥ 1) then [] else ["c11-pruning-skipped-non-descendant"]) ++
+    (if nodes.all (fun n => count n.1 visited ≤ count n.1 want) then [] else ["c11-node-visited-twice"])
+
 end Pql.WalkOracle
